@@ -19,6 +19,7 @@ TECHNIQUE = TECH + " (objective functions as uninterpreted symbols)"
 E = {"SYM_ABS_NOFORK": "1", "SYM_DIV0_PRUNE": "1"}
 JOBS = [
     Job("bracketing", "C10.cpp", ["HLO=0", "HHI=1", "EVALMAX=5"], env=E, budget_s=300, spurious_possible=True, desc="inward and outward bracketing: ordered triple, middle lowest, recorded values are f at the abscissae"),
+    Job("bracketing-generic", "C10.cpp", ["HLO=1", "HHI=1", "EVALMAX=5", "SEPARATE"], env=E, budget_s=300, spurious_possible=True, desc="outward bracketing again with objective values in generic position (pairwise more than 1e-3 apart): counterexamples of this variant survive the rounding of the native replay"),
     Job("newton-step", "C10.cpp", ["HLO=2", "HHI=2"], env=E, budget_s=300, spurious_possible=True, desc="one Newton step incl. the step-halving correction: descent, value = f(reported), objective left there, feasibility under the automatic policy"),
     Job("brent-2steps", "C10.cpp", ["HLO=3", "HHI=3", "EVALMAX=5"], fix="maxSteps=2", tiers=("thorough",), env=E, budget_s=3000, spurious_possible=True, desc="Brent, two steps"),
     Job("brent", "C10.cpp", ["HLO=3", "HHI=3", "EVALMAX=5"], fix="maxSteps=1", env=E, budget_s=400, spurious_possible=True, desc="Brent with inward bracketing: descent w.r.t. the starting value, value = f(reported), objective left there, never evaluated outside the constraint"),
